@@ -31,7 +31,7 @@ from vf.symx import Ctx, PathAbort, SymBool, Unsupported
 
 PID = "C18"
 
-ROOT = "/vroot"
+ROOT = "/vtop/vroot"
 NAMES = ["xa", "xb"]
 
 
@@ -52,6 +52,8 @@ def universe(depth: int) -> tuple[set[str], set[str]]:
                 rec(sub, lvl + 1)
 
     rec(ROOT, 1)
+    files.add(f"{ROOT}/__init__.py")
+    files.add(f"{ROOT}/__init__.pyi")
     return files, dirs
 
 
@@ -64,6 +66,7 @@ class SymFS:
         self.dirs = dirs
         self.memo: dict[tuple[str, str], bool] = {}
         self.package_root: list[str] = []
+        self.root_init = False
 
     def _ask(self, kind: str, path: str) -> bool:
         key = (kind, path)
@@ -88,6 +91,8 @@ class SymFS:
         path = os.path.normpath(path)
         if path not in self.files:
             return False
+        if os.path.dirname(path) == ROOT and os.path.basename(path).startswith("__init__") and not self.root_init:
+            return False  # the root is a package only in the explicit-package-bases scenario
         if not self.isdir(os.path.dirname(path)):
             return False
         return self._ask("file", path)
@@ -103,6 +108,10 @@ class SymFS:
 
     def listdir(self, path: str) -> list[str]:
         path = os.path.normpath(path)
+        if ROOT.startswith(path.rstrip("/") + "/") or path == "/":
+            # ancestors of the root contain exactly the next path component
+            rest = ROOT[len(path.rstrip("/")) + 1 :]
+            return [rest.split("/")[0]]
         out = []
         for p in sorted(self.files | self.dirs):
             if os.path.dirname(p) == path and (self.isfile(p) or self.isdir(p)):
@@ -120,6 +129,13 @@ class SymFS:
 
     def layout(self) -> dict[str, bool]:
         return {f"{k}:{p[len(ROOT):]}": v for (k, p), v in sorted(self.memo.items())}
+
+
+def mod_of(finder: Any, path: str) -> str:
+    try:
+        return finder.crawl_up(path)[0]
+    except Exception:
+        return ""
 
 
 _WORK: Any = None
@@ -152,9 +168,9 @@ def run_layouts(rep: Report, tier: str) -> None:
     rep.kernel("mypy.modulefinder", symx.source_hash(MF.__file__))
     depth = 2 if tier == "quick" else 3
     files, dirs = universe(depth)
-    cand = sorted(files)
+    cand = sorted(f for f in files if os.path.dirname(f) != ROOT or not os.path.basename(f).startswith("__init__"))
     if tier == "quick":
-        cand = [f for f in cand if f.count("/") <= 3]
+        cand = [f for f in cand if f[len(ROOT):].count("/") <= 2]
     found: dict[str, tuple] = {}
     state: dict = {"files": files, "dirs": dirs, "cand": cand, "small": False}
     stats = {"inverse_ok": 0, "shadowed": 0, "dups": 0, "dir_ok": 0}
@@ -169,6 +185,7 @@ def run_layouts(rep: Report, tier: str) -> None:
         o.namespace_packages = ns
         o.explicit_package_bases = explicit
         o.mypy_path = [ROOT] if explicit else []
+        fs.root_init = explicit
         F = state["F"] if state.get("F") else cand[c.choose("named_file", len(cand))]
         # the named file exists
         d = os.path.dirname(F)
@@ -202,6 +219,70 @@ def run_layouts(rep: Report, tier: str) -> None:
             key = f"inverse: crawl_up gives a module name that find_module resolves elsewhere (namespace_packages={ns}, explicit_package_bases={explicit})"
             found.setdefault(key, (F, mod, base, str(r), ns, explicit, fs.layout()))
             return
+        # --- D: the file is not reachable under a second module name from the search roots
+        # (that is what makes mypy stop with "Source file found twice under different module names")
+        roots = [base] + ([ROOT] if explicit else [])
+        for root in roots:
+            if not (F.startswith(root + "/")):
+                continue
+            rel = F[len(root) + 1 :].rsplit(".", 1)[0].split("/")
+            if rel[-1] == "__init__":
+                rel = rel[:-1]
+            alt = ".".join(rel)
+            if not alt or alt == mod:
+                continue
+            r2 = fmc.find_module(alt)
+            c.stats["assert_queries"] += 1
+            if isinstance(r2, str) and os.path.normpath(r2) == F:
+                c.stats["refuted"] += 1
+                found.setdefault(f"a named file is assigned one module name but also resolves under another (namespace_packages={ns}, explicit_package_bases={explicit})", (F, mod, base, f"also importable as {alt}", ns, explicit, fs.layout()))
+                return
+            c.stats["discharged"] += 1
+        # --- E: `-p PKG` (find_modules_recursive) lists the same files as crawling the package directory
+        if state.get("pkg"):
+            for top in ["xa"]:
+                pdir = f"{ROOT}/{top}"
+                r0 = fmc.find_module(top)
+                if not (isinstance(r0, str) and os.path.dirname(os.path.normpath(r0)) == pdir):
+                    continue  # `top` does not resolve to the package directory (shadowed / namespace)
+                # stated bound of this obligation: regular packages only -- every existing directory
+                # below the package has an __init__ file and no module file shares a directory's name
+                regular = True
+                for dd in sorted(state["dirs"]):
+                    if dd.startswith(pdir) and fs.isdir(dd):
+                        if not (fs.isfile(dd + "/__init__.py") or fs.isfile(dd + "/__init__.pyi")):
+                            regular = False
+                        if fs.isfile(dd + ".py") or fs.isfile(dd + ".pyi"):
+                            regular = False
+                if not regular:
+                    continue
+                if not fs.isdir(pdir):
+                    continue
+                try:
+                    rec = fmc.find_modules_recursive(top)
+                except Exception:
+                    continue
+                by_p = {os.path.normpath(x.path) for x in rec if x.path}
+                try:
+                    by_dir = {os.path.normpath(x.path) for x in finder.find_sources_in_dir(pdir)}
+                except FS.InvalidSourceList:
+                    continue
+                # only meaningful when the directory is found as package `top` at all
+                if not by_p:
+                    continue
+                # compare packages/modules below it, modulo stub-shadows-source
+                def stem(pth: str) -> str:
+                    return pth.rsplit(".", 1)[0]
+                c.stats["assert_queries"] += 1
+                if {stem(x) for x in by_p} == {stem(x) for x in by_dir if mod_of(finder, x).split(".")[0] == top}:
+                    c.stats["discharged"] += 1
+                else:
+                    c.stats["refuted"] += 1
+                    lay = fs.layout()
+                    clash = any(k.startswith("dir:") and v and (lay.get("file:" + k[4:] + ".py") or lay.get("file:" + k[4:] + ".pyi")) for k, v in lay.items())
+                    cls = "a module file and a same-named directory are both present" if clash else "no module/directory name clash"
+                    found.setdefault(f"-p PKG and checking the package directory select different files ({cls}; namespace_packages={ns})", (F, top, base, f"-p: {sorted(by_p)} dir: {sorted(by_dir)}", ns, explicit, lay))
+                    return
         # --- B: a second named file with the same module name must be a documented pair
         G = cand[c.choose("second_file", len(cand))]
         if G != F and fs.isfile(G):
@@ -235,7 +316,7 @@ def run_layouts(rep: Report, tier: str) -> None:
             except FS.InvalidSourceList:
                 continue
             c.stats["assert_queries"] += 1
-            if (s.module, s.base_dir) == (m3, b3):
+            if (s.module, s.base_dir) == (m3 or "__main__", b3):
                 c.stats["discharged"] += 1
                 stats["dir_ok"] += 1
             else:
@@ -272,19 +353,26 @@ def run_layouts(rep: Report, tier: str) -> None:
     rep.add_ctx("symbolic file system: crawl_up vs find_module", ctx, depth=depth, universe_files=len(state["files"]), named_candidates=len(state["cand"]), partitions=len(cand), **stats)
     # second exploration: depth-1 universe, one name below the top level, including the directory form
     f1, d1 = universe(1)
-    state.update(files=f1, dirs=d1, cand=sorted(f1), small=True)
+    state.update(files=f1, dirs=d1, cand=sorted(f for f in f1 if os.path.dirname(f) != ROOT or not os.path.basename(f).startswith("__init__")), small=True)
     ctx2 = Ctx(max_paths=3_000_000, deadline_s=900)
     ctx2.explore(body)
     rep.add_ctx("symbolic file system (small universe) incl. directory form", ctx2, universe_files=len(f1), **stats)
+    # third exploration: one package with a sub-package, for the `-p PKG` form
+    fp = {f"{ROOT}/xa/__init__.py", f"{ROOT}/xa/__init__.pyi", f"{ROOT}/xa/xb.py", f"{ROOT}/xa/xb.pyi", f"{ROOT}/xa/xb/__init__.py", f"{ROOT}/xa/xb/__init__.pyi", f"{ROOT}/xa/xb/xa.py", f"{ROOT}/xa/xb/xa.pyi"}
+    dp = {f"{ROOT}/xa", f"{ROOT}/xa/xb"}
+    state.update(files=fp, dirs=dp, cand=sorted(fp), small=False, pkg=True)
+    ctx3 = Ctx(max_paths=3_000_000, deadline_s=900)
+    ctx3.explore(body)
+    rep.add_ctx("symbolic file system (package universe) incl. -p form", ctx3, universe_files=len(fp), **stats)
     rep.twin("inverse reached with exact and shadowed resolutions", stats["inverse_ok"] > 0 and stats["shadowed"] > 0)
     rep.sample({"universe": sorted(files)[:10], "stats": stats})
     for key, val in found.items():
         F, mod, base, r, ns, explicit, layout = val
         rep.sample({"class": key, "file": F, "module": mod, "base": base, "other": r, "layout": layout})
-        rep.candidate(key, f"file {F} -> module {mod!r} (root {base}); resolves to {r}; layout {layout}", {"file": F, "layout": layout, "ns": ns, "explicit": explicit}, replay_layout(F, layout, ns, explicit, mod))
+        rep.candidate(key, f"file {F} -> module {mod!r} (root {base}); resolves to {r}; layout {layout}", {"file": F, "layout": layout, "ns": ns, "explicit": explicit}, replay_layout(F, layout, ns, explicit, mod, key))
 
 
-def replay_layout(F: str, layout: dict, ns: bool, explicit: bool, mod: str):
+def replay_layout(F: str, layout: dict, ns: bool, explicit: bool, mod: str, key_text: str = ""):
     def replay(d: str) -> tuple[bool, str]:
         work = scratch("c18-")
         try:
@@ -301,7 +389,10 @@ def replay_layout(F: str, layout: dict, ns: bool, explicit: bool, mod: str):
                         f.write(f"MARK = {rel!r}\n")
             relF = F[len(ROOT) + 1 :]
             # a probe module that imports the module name mypy assigned and reveals which file it got
-            probe = f"import {mod}\nreveal_type({mod}.MARK)\n" if mod else ""
+            relmod = ".".join(x for x in relF.rsplit(".", 1)[0].split("/") if x != "__init__")
+            names_ = [n_ for n_ in dict.fromkeys([mod, relmod, relmod.split(".", 1)[-1]]) if n_]
+            probe = "".join(f"import {n_}\nreveal_type({n_}.MARK)\n" for n_ in names_ if n_ == mod or explicit)
+            pflag = ["-p", relmod.split(".")[0]] if "select different files" in key_text else []
             with open(os.path.join(root, "zz_probe.py"), "w") as f:
                 f.write(probe)
             flags = ["--namespace-packages" if ns else "--no-namespace-packages"] + (["--explicit-package-bases"] if explicit else [])
@@ -309,15 +400,26 @@ def replay_layout(F: str, layout: dict, ns: bool, explicit: bool, mod: str):
             env.pop("PYTHONPATH", None)
             if explicit:
                 env["MYPYPATH"] = root
-            p = subprocess.run([sys.executable, "-m", "mypy", "--no-incremental", "--cache-dir=" + os.devnull, "--no-error-summary"] + flags + [relF, "zz_probe.py"], cwd=root, capture_output=True, text=True, env=env, timeout=300)
+            base_cmd = [sys.executable, "-m", "mypy", "--no-incremental", "--cache-dir=" + os.devnull, "--no-error-summary"] + flags
+            if pflag:
+                # the property's consequence: -p PKG and the package directory report the same diagnostics
+                for k, v in layout.items():
+                    kind, rel = k.split(":", 1)
+                    if v and kind == "file" and os.path.exists(root + rel):
+                        with open(root + rel, "w") as f:
+                            f.write(f'BAD: int = "{rel}"\n')
+                p1 = subprocess.run(base_cmd + pflag, cwd=root, capture_output=True, text=True, env=env, timeout=300)
+                p2 = subprocess.run(base_cmd + [pflag[1]], cwd=root, capture_output=True, text=True, env=env, timeout=300)
+                o1 = sorted(l for l in p1.stdout.splitlines() if "error" in l)
+                o2 = sorted(l for l in p2.stdout.splitlines() if "error" in l)
+                return o1 != o2, f"mypy {' '.join(pflag)} reports {o1}; mypy {pflag[1]}/ reports {o2}"
+            p = subprocess.run(base_cmd + [relF, "zz_probe.py"], cwd=root, capture_output=True, text=True, env=env, timeout=300)
             out = p.stdout + p.stderr
         finally:
             shutil.rmtree(work, ignore_errors=True)
         with open(os.path.join(d, "replay.txt"), "w") as f:
             f.write(f"layout under vroot/: {layout}\ncommand (cwd vroot): mypy {' '.join(flags)} {relF} zz_probe.py\n")
-        dup = "Duplicate module" in out or "found twice" in out or "is not a valid Python package name" in out
-        resolved_ok = f"Literal['/{relF}']" in out.replace("str", f"Literal['/{relF}']") if False else ("/" + relF) in out or "builtins.str" in out
-        bad = not dup and ("Cannot find" in out or "has no attribute" in out or "error:" in out)
+        bad = "Cannot find" in out or "has no attribute" in out or "error:" in out or "found twice" in out
         return bad, out[-600:]
 
     return replay
